@@ -17,6 +17,44 @@ SOLVERS = {
 }
 
 MEM_LIMIT = int(os.environ.get("VERIF_MEM_GB", "14")) * (1 << 30)
+MEM_BUDGET_GB = int(os.environ.get("VERIF_MEM_BUDGET_GB", "0")) or None
+
+
+class _MemBudget:
+    """jobs declare their expected peak memory; the sum of running jobs stays below the budget"""
+    def __init__(self):
+        import threading
+        self.cv = threading.Condition()
+        self.used = 0
+        self.total = None
+
+    def _tot(self):
+        if self.total is None:
+            if MEM_BUDGET_GB:
+                self.total = MEM_BUDGET_GB
+            else:
+                try:
+                    kb = int(re.search(r"MemAvailable:\s+(\d+)", open("/proc/meminfo").read()).group(1))
+                    self.total = max(8, int(kb / (1 << 20) * 0.8))
+                except Exception:
+                    self.total = 16
+        return self.total
+
+    def acquire(self, n):
+        n = min(n, self._tot())
+        with self.cv:
+            while self.used + n > self._tot():
+                self.cv.wait()
+            self.used += n
+        return n
+
+    def release(self, n):
+        with self.cv:
+            self.used -= n
+            self.cv.notify_all()
+
+
+BUDGET = _MemBudget()
 
 
 @dataclass
@@ -48,6 +86,8 @@ class Job:
     expect_fail: list = field(default_factory=list)  # known-finding obligations (regex)
     min_post: int = 1           # minimal number of contract obligations (vacuity guard)
     weave_functions: list = field(default_factory=list)  # further functions whose loops get their clauses
+    portfolio: bool = False     # run all solvers concurrently, first verdict wins (default: one after the other)
+    mem_gb: int = 4             # expected peak memory of the cbmc run: the scheduler keeps the sum below VERIF_MEM_BUDGET_GB
 
 
 def _limits():
@@ -55,13 +95,21 @@ def _limits():
     os.setsid()
 
 
-def run(cmd, timeout, cwd, env=None, stdout_path=None):
+def _mk_limits(mem_bytes):
+    def f():
+        resource.setrlimit(resource.RLIMIT_AS, (mem_bytes, mem_bytes))
+        os.setsid()
+    return f
+
+
+def run(cmd, timeout, cwd, env=None, stdout_path=None, mem_gb=None):
     t0 = time.time()
+    pre = _mk_limits(max(MEM_LIMIT, int(mem_gb * 2.5) << 30)) if mem_gb else _limits
     out = open(stdout_path, "wb") if stdout_path else subprocess.PIPE
     try:
         p = subprocess.Popen(cmd, cwd=cwd, env=env, stdout=out,
                              stderr=subprocess.STDOUT if not stdout_path else subprocess.PIPE,
-                             preexec_fn=_limits)
+                             preexec_fn=pre)
         try:
             so, se = p.communicate(timeout=timeout)
             rc = p.returncode
@@ -207,7 +255,7 @@ def build_job(job, wd, log):
 
 
 def cbmc_cmd(job, gb, solver):
-    cmd = ["cbmc", gb, "--json-ui"]
+    cmd = ["cbmc", gb]
     if job.mode != "M1":
         cmd += ["--function", job.entry]
     if job.unwind is not None:
@@ -222,8 +270,8 @@ def cbmc_cmd(job, gb, solver):
         cmd += ["--malloc-may-fail", "--malloc-fail-null"]
     if job.nondet_static and job.mode != "M1":
         cmd += ["--nondet-static"]
-    if job.object_bits:
-        cmd += ["--object-bits", str(job.object_bits)]
+    if job.object_bits or job.mode == "M3":
+        cmd += ["--object-bits", str(job.object_bits or 12)]
     cmd += job.flags
     cmd += SOLVERS[solver]
     return cmd
@@ -233,7 +281,9 @@ def parse_cbmc(path):
     try:
         data = json.load(open(path))
     except Exception as e:
-        raise Undecided("cannot parse cbmc json: %s" % e)
+        raw = open(path, errors="replace").read()
+        m = re.search(r"Condition: .*\n(Reason: .*)?", raw)
+        raise Undecided("cbmc aborted (%s): %s" % (e, (m.group(0) if m else raw[-600:]).strip()[:700]))
     results, msgs, status = None, [], None
     for e in data:
         if "result" in e:
@@ -243,6 +293,63 @@ def parse_cbmc(path):
         elif "messageText" in e:
             msgs.append(e["messageText"])
     return results, msgs, status
+
+
+def race(job, gb, wd):
+    """start cbmc once per solver, concurrently; the first run that ends with a verdict wins, the rest are killed.
+    returns (solver, rc, seconds) or None when none produced a verdict within the timeout"""
+    t0 = time.time()
+    procs = {}
+    got = BUDGET.acquire(job.mem_gb * len(job.solvers))
+    try:
+        for solver in job.solvers:
+            d = os.path.join(wd, "tmp." + solver)
+            os.makedirs(d, exist_ok=True)
+            env = dict(os.environ, TMPDIR=d)
+            outp = os.path.join(wd, "cbmc.%s.log" % solver)
+            rssf = os.path.join(wd, "rss.%s" % solver)
+            cmd = ["/usr/bin/time", "-f", "%M", "-o", rssf] + cbmc_cmd(job, gb, solver)
+            procs[solver] = (subprocess.Popen(cmd, cwd=wd, env=env, stdout=open(outp, "wb"), stderr=subprocess.DEVNULL,
+                                              preexec_fn=_mk_limits(max(MEM_LIMIT, int(job.mem_gb * 2.5) << 30))), outp)
+        winner = None
+        while procs and time.time() - t0 < job.timeout and winner is None:
+            time.sleep(0.3)
+            for solver, (p, outp) in list(procs.items()):
+                if p.poll() is None:
+                    continue
+                del procs[solver]
+                if "VERIFICATION" in open(outp, errors="replace").read():
+                    winner = (solver, p.returncode, time.time() - t0)
+                    break
+        return winner
+    finally:
+        for solver, (p, outp) in procs.items():
+            try:
+                os.killpg(p.pid, 9)
+            except Exception:
+                pass
+            try:
+                p.wait(timeout=5)
+            except Exception:
+                pass
+        BUDGET.release(got)
+
+
+def parse_text(path):
+    raw = open(path, errors="replace").read()
+    results = []
+    for m in re.finditer(r"^\[([^\]]+)\] (?:line (\d+) )?(.*): (SUCCESS|FAILURE|UNKNOWN|ERROR)\s*$", raw, re.M):
+        results.append({"property": m.group(1), "description": m.group(3), "status": m.group(4),
+                        "sourceLocation": {"line": m.group(2)}})
+    msgs = [l for l in raw.split("\n") if l.startswith(("warning", "Out of memory", "Solver ran out", "too many addressed"))]
+    if "Out of memory" in raw or "ran out of memory" in raw or "std::bad_alloc" in raw:
+        msgs.append("Out of memory")
+    if not results or "VERIFICATION" not in raw:
+        if any("memory" in m for m in msgs):
+            return None, msgs, None
+        mm = re.search(r"Condition: .*\n(Reason: .*)?", raw)
+        return None, msgs + ["cbmc gave no verdict: " + ((mm.group(0) if mm else raw[-500:]).strip()[:700])], None
+    return results, msgs, None
 
 
 # "ignoring infinity" (infinite-size is_fresh bookkeeping array of the non-DFCC contract
@@ -300,17 +407,37 @@ def run_job(job, tmp_root):
             gb = build_job(job, wd, log)
         buildlog = open(logp).read()
         last = None
-        for solver in job.solvers:
+        order = list(job.solvers)
+        raced = None
+        if job.portfolio and len(order) > 1:
+            raced = race(job, gb, wd)
+            order = [raced[0]] if raced else order[:1]
+        for solver in order:
             env = dict(os.environ)
             env["TMPDIR"] = wd
-            outp = os.path.join(wd, "cbmc.%s.json" % solver)
+            outp = os.path.join(wd, "cbmc.%s.log" % solver)
             cmd = cbmc_cmd(job, gb, solver)
-            rc, txt, secs = run(cmd, job.timeout, wd, env=env, stdout_path=outp)
+            rssf = os.path.join(wd, "rss.%s" % solver)
+            tcmd = (["/usr/bin/time", "-f", "%M", "-o", rssf] if os.path.exists("/usr/bin/time") else []) + cmd
+            if raced:
+                rc, secs = raced[1], raced[2]
+            else:
+                got = BUDGET.acquire(job.mem_gb)
+                try:
+                    rc, txt, secs = run(tcmd, job.timeout, wd, env=env, stdout_path=outp, mem_gb=job.mem_gb)
+                finally:
+                    BUDGET.release(got)
+            try:
+                res["max_rss_mb"] = int(open(rssf).read().strip().split("\n")[-1]) // 1024
+            except Exception:
+                pass
             res["checker_cmd"] = " ".join(cmd)
             if rc == "timeout":
                 last = "timeout after %ds on %s" % (job.timeout, solver)
                 continue
-            results, msgs, status = parse_cbmc(outp)
+            # plain-text UI: cbmc --json-ui aborts on some runs (warnings that carry ireps, counterexample building);
+            # the text report lists the same obligations and verdicts
+            results, msgs, status = parse_text(outp)
             alltxt = "\n".join(msgs) + buildlog
             if any("Out of memory" in m or "out of memory" in m for m in msgs):
                 last = "cbmc ran out of memory on %s" % solver
@@ -331,8 +458,8 @@ def run_job(job, tmp_root):
                 # (a full --trace run formats whole symbolic-size arrays and can exhaust memory)
                 for f in out["failed"][:2]:
                     tp = os.path.join(wd, "trace.json")
-                    tcmd = cmd + ["--trace", "--property", f["obligation"]]
-                    rc2, _t, _s = run(tcmd, min(job.timeout, 900), wd, env=env, stdout_path=tp)
+                    tcmd = cmd + ["--json-ui", "--trace", "--property", f["obligation"]]
+                    rc2, _t, _s = run(tcmd, min(job.timeout, 900), wd, env=env, stdout_path=tp, mem_gb=job.mem_gb)
                     try:
                         r2, _m, _st = parse_cbmc(tp)
                         for r in r2 or []:
@@ -386,6 +513,13 @@ def _judge(job, res, results, alltxt, t0):
     res["samples"] = [r["property"] + ": " + r.get("description", "") for r in results
                       if classify(r["property"], r.get("description", "")) in
                       ("postcondition", "assigns", "loop_invariant", "assertion")][:4]
+    unknown = [f for f in failed if f["status"] == "UNKNOWN"]
+    failed = [f for f in failed if f["status"] != "UNKNOWN"]
+    if unknown and not failed:
+        res["outcome"] = "UNDECIDED"
+        res["reason"] = "%d obligations left UNKNOWN by cbmc, e.g. %s" % (len(unknown), unknown[0]["obligation"])
+        return res
+    res["unknown"] = len(unknown)
     unwind_fail = [f for f in failed if f["class"] == "unwind"]
     if unwind_fail and len(unwind_fail) < len(failed):
         # an out-of-bounds access can drag instrumentation-internal loops along;
